@@ -357,7 +357,9 @@ def check(ctx):            # noqa: F811  (extends the rules above)
     _base_check_c09(ctx)
     fetching(ctx, ctx.prog)
     # "value locked in claims and supports is reported apart from spendable funds": the type column every output is stored with
-    R.share(ctx, "C15", {"C15-T5": "C09-D7"})
+    R.share(ctx, "C15", {"C15-T5": "C09-D7", "C15-T4": "C09-D7/CLASSIFY"})
+    # "the wallet's stored history … equals the server's": transactions are stored and looked up under the id computed here
+    R.share(ctx, "C05", {"C05-D3": "C09-D8"})
 
 
 def fetching(ctx, prog):
